@@ -115,6 +115,24 @@ def _collect(tier):
         scen.append({"k": k, "files": rnd.sample(ordinary, 3) + ["rejected.vhd"], "p": 2, "fix": True, "bad": []})
         k += 1
         scen.append({"k": k, "files": ["rejected.vhd"] + rnd.sample(ordinary, 2), "p": 3, "fix": False, "bad": ["rejected.vhd"]})
+        # per-file settings (file_list sections) of rules the main configuration also sets: they belong to that file only
+        main_rule = {"length_001": {"length": 100}, "entity_008": {"case": "lower"}, "architecture_013": {"case": "lower"}, "signal_004": {"case": "lower"}}
+        for j in range(2 if q else 8):
+            fs = rnd.sample(ordinary, 3)
+            per = {fs[0]: {"length_001": {"length": 40}, "entity_008": {"case": "upper"}, "architecture_013": {"case": "upper"}, "signal_004": {"disable": True}}}
+            for p in ((1, 2) if j % 2 == 0 else (1,)):
+                k += 1
+                scen.append({"k": k, "files": fs, "p": p, "fix": j % 2 == 1, "bad": [], "main_rule": main_rule, "perfile": per, "kind": "perfile-settings"})
+    # --fix_only given once for several files: every file gets the whole selection (all rules listed "all" = plain --fix)
+    import ruledocs
+
+    everything = {"fix": {"rule": dict((rid, ["all"]) for rid in sorted(ruledocs.documented_rules()))}}
+    ordinary = [n for n in names if n != "rejected.vhd" and not n.startswith("sticky_")]
+    for j in range(2 if q else 6):
+        fs = rnd.sample(ordinary, 3)
+        for p in (1, 2):
+            k += 1
+            scen.append({"k": k, "files": fs, "p": p, "fix": True, "fix_only": everything, "kind": "fix_only-all"})
     nsh = 16
     jobs = []
     for j in range(nsh):
@@ -148,7 +166,7 @@ def _collect(tier):
             r = recs[rid]
             t = r["tasks"][kk - 1] if 0 < kk <= len(r["tasks"]) else {}
             findings.append({"property": clause.split("_")[0], "clause": clause, "rule": "", "input": "stdin" if r["stdin"] else (t.get("file") or ",".join(r["files"])),
-                             "config": "p=%d fix=%s%s" % (r["p"], r["fix"], " stdin" if r["stdin"] else ""),
+                             "config": "p=%d fix=%s%s%s" % (r["p"], r["fix"], " stdin" if r["stdin"] else "", (" " + r["kind"]) if r.get("kind") else ""),
                              "detail": {"files": r["files"], "task": t, "printed": r["printed"], "exit": r["exit"], "stderr_tail": r["stderr_tail"]}})
     # the same invocations as behaviours of spec/Main.tla (per-process event sequences; TLC finds the interleaving)
     mouts = [o + ".main" for o in outs if os.path.exists(o + ".main")]
@@ -190,7 +208,7 @@ def _collect(tier):
                 else:
                     dev = " dev=" + ",".join("%d:%s" % (i + 1, d) for i, d in devs)
             findings.append({"property": clause.split("_")[0], "clause": clause, "rule": "", "input": ",".join(r["names"]),
-                             "config": "p=%d fix=%s%s" % (r["jobs"], r["fix"], " percfg:" + ",".join(r["bad"]) if r.get("percfg") else "") + dev,
+                             "config": "p=%d fix=%s%s" % (r["jobs"], r["fix"], " percfg:" + ",".join(r["bad"]) if r.get("percfg") else "") + ((" " + r["kind"]) if r.get("kind") else "") + dev,
                              "detail": {"files": r["names"], "abstract": r["files"], "task": kk, "procs": r["procs"], "out": r["out"], "err": r["err"], "exit": r["exit"], "junit": r["junit"], "json": r["json"],
                                         "disk": r["disk"], "stderr_tail": r["stderr_tail"]}})
     samples += main_samples
